@@ -17,19 +17,27 @@ def digest(r, info):
 
 
 def run_many(job):
+    """K runs of one project: fresh build directory for every even run, the SAME directory re-used by the odd run that follows it
+    (the cache is disabled by --info-export, so every run regenerates: what an earlier run left behind — symlinks of imports,
+    downloaded directories, the previous ninja file — must not change what the next one writes)"""
     p, k = job
     os.makedirs(projrun.SCRATCH, exist_ok=True)
     out = []
-    for i in range(k):
-        d = tempfile.mkdtemp(prefix="d", dir=projrun.SCRATCH)
-        try:
-            # same absolute path for every run: project-root is part of the output
-            root = os.path.join(projrun.SCRATCH, "det-" + projcheck.phash(p))
-            if os.path.exists(root):
-                shutil.rmtree(root, ignore_errors=True)
-            os.rename(d, root)
+    # same absolute path for every run: project-root is part of the output
+    root = os.path.join(projrun.SCRATCH, "det-" + projcheck.phash(p))
+    try:
+        for i in range(k):
+            reuse = i % 2 == 1
+            if not reuse:
+                if os.path.exists(root):
+                    shutil.rmtree(root, ignore_errors=True)
+                os.makedirs(root)
+                projrun.write_project(root, p["files"])
+            else:
+                for f in ("info.json",):
+                    if os.path.exists(os.path.join(root, f)):
+                        os.remove(os.path.join(root, f))
             d = root
-            projrun.write_project(d, p["files"])
             r = projrun.run_laze(d, p.get("args", {}), extra_env={"RAYON_NUM_THREADS": THREADS[i % len(THREADS)]},
                                  more=("-i", "info.json"))
             r["dump"] = projrun.read_dump(d)
@@ -40,9 +48,9 @@ def run_many(job):
             tuples = sorted((b["builder"], b["app"], b["decision"]) for b in r["dump"])
             tasks = sorted((b["builder"], b["app"], sorted(t[0] for t in b.get("tasks", []))) for b in r["dump"] if b["decision"] == "built")
             out.append({"status": projrun.impl_status(r), "digest": digest(r, info), "tuples": tuples, "tasks": tasks,
-                        "threads": THREADS[i % len(THREADS)], "stderr": (r["stderr"] or "")[-200:]})
-        finally:
-            shutil.rmtree(d, ignore_errors=True)
+                        "threads": THREADS[i % len(THREADS)], "reused_build_dir": reuse, "stderr": (r["stderr"] or "")[-200:]})
+    finally:
+        shutil.rmtree(root, ignore_errors=True)
     return (p, out)
 
 
@@ -76,6 +84,32 @@ def nested_downloads(p, i):
     return p
 
 
+def local_import(p, i):
+    """graft a local import (`imports: [{path: vendor/ext<i>, symlink: ..}]`): a directory with its own lazefile whose module the apps
+    depend on. Imports are not part of the model; the repeated-run oracle applies (a symlinked import is reached through
+    build/imports/<name> on every run, first or not)"""
+    import copy, random
+    rng = random.Random(i * 13 + 5)
+    p = copy.deepcopy(p)
+    root = p["files"]["laze-project.yml"][0]
+    d = f"vendor/ext{i % 3}"
+    lazefile = rng.choice(["laze-lib.yml", "laze.yml"])
+    p["files"][f"{d}/{lazefile}"] = [{"modules": [{"name": "extmod", "sources": ["ext.c", "sub/ext2.c"],
+                                                    "env": {"export": {"CFLAGS": ["-I${relpath}/include", "-DROOT=${root}"]}}},
+                                                   {"sources": ["nameless.c"]}]}]
+    imp = {"path": d, "symlink": rng.random() < 0.75}
+    if rng.random() < 0.3:
+        imp["name"] = "extlib"
+    if rng.random() < 0.2:
+        imp["dldir"] = "extdir"
+    root["imports"] = [imp]
+    for kind, m, path_ in projcheck.yaml_modules(p):
+        if kind == "apps":
+            m["depends"] = list(m.get("depends") or []) + ["extmod"]
+    p["_imports"] = True
+    return p
+
+
 def multikey(p):
     n = 0
     for kind, m, path in projcheck.yaml_modules(p):
@@ -104,9 +138,13 @@ def run(chk):
     # (2) repeated runs
     jobs = [(projgen.gen_project(chk.seed + 900, i, PROF), k) for i in range(n)]
     jobs += [(nested_downloads(projgen.gen_project(chk.seed + 950, i, PROF), i), 2 * k) for i in range(max(4, n // 8))]
+    jobs += [(local_import(projgen.gen_project(chk.seed + 970, i, PROF), i), k) for i in range(max(6, n // 6))]
     for p, runs in common.parallel_map(worker, jobs, nproc=8):
         chk.evaluations += len(runs)
         chk.count("repeated-runs", len(runs))
+        chk.count("repeated-runs:in-a-used-build-dir", sum(1 for r in runs if r.get("reused_build_dir")))
+        if p.get("_imports"):
+            chk.count("projects-with-local-import:" + "/".join(sorted({r["status"] for r in runs})))
         ds = {r["digest"] for r in runs}
         ts = {json.dumps(r["tuples"]) for r in runs}
         ss = {r["status"] for r in runs}
